@@ -142,23 +142,3 @@ Proof. induction l as [|h t IH]; intros [|i] x H; cbn in *; try discriminate; [i
 Lemma holds_t_not_rmw p : holds_t p = true -> thief_rmw p = false.
 Proof. destruct p; cbn; auto; discriminate. Qed.
 
-(** * Initial states *)
-Lemma TInv_init s : tso_initial s -> TInv s.
-Proof.
-  intros (sz & n & Hsz & ->). exists TIdle, [], false. split.
-  - cbn [tso_init sc obuf omark tbufs init_state mm qsize own pushed returned].
-    rewrite sumw_repeat_nil.
-    pose proof (quot2_bounds sz ltac:(lia)) as Q.
-    constructor; unfold LT, LB, Lq; cbn; auto; try (intros; discriminate); try lia.
-    + constructor; unfold Tq, Bq; cbn; auto; try lia.
-      * rewrite repeat_length. lia.
-      * intro x. rewrite zseg_nil by lia. reflexivity.
-    + split; [intros; discriminate|]. split; [intros _; left; constructor|]. intros; discriminate.
-    + constructor.
-  - cbn [tso_init sc tbufs tmarks init_state thv]. split; [rewrite !repeat_length; auto|].
-    split; [rewrite !repeat_length; auto|]. left. split; auto. split; auto.
-    intros j pc buf _ Ej Bj. split.
-    + rewrite (nth_error_repeat_TIdle _ _ _ Ej). reflexivity.
-    + assert (buf = []) as ->; [|constructor].
-      clear - Bj. revert j Bj. induction n as [|n IH]; intros [|j] Bj; cbn in *; try discriminate; [inversion Bj; auto|eauto].
-Qed.
